@@ -33,6 +33,11 @@ def _central(comps, k, name, x, y, h):
 
 def partial(comps, k, name, x, y):
     """d model / d (component k, parameter name): central differences + two Richardson extrapolations"""
+    # the model is exactly 360-periodic in theta and fmod is exact: differencing at the reduced angle keeps the step
+    # representable when the optimiser has wandered to theta ~ 1e9 deg (thorough C04: a +-0.2 deg step is then only
+    # good to 2e-6)
+    comps = list(comps)
+    comps[k] = dict(comps[k], theta=float(np.fmod(comps[k]['theta'], 360.0)))
     v = comps[k][name]
     scale = {'amp': max(abs(v), 1e-3), 'xo': 1.0, 'yo': 1.0, 'sx': abs(v), 'sy': abs(v), 'theta': 10.0}[name]
     h = 2e-2 * scale
